@@ -15,16 +15,16 @@ from engine.minieval import Evaluator, Raised, Unsupported
 
 PID = "C03"
 EXPLANATION = (
-    "(1) Convention agreement (Engler-style cross-check): every place where the library inserts the sign of a ket-then-bra "
-    "contracted pair is located by shape (a parity flip, or a sort key, selected by a test of an index's direction), and "
-    "classified as (which of the two contracted indices the test looks at, tested direction). The single convention - a sign iff "
-    "the FIRST index of the pair (the left factor's) is non-dual, equivalently iff the SECOND (the right factor's) is dual - must "
-    "hold at all of tensordot (both size branches), matmul, trace, einsum's sort key, and the qr / svd / eigh / solve wrappers; an "
-    "unclassified direction-dependent sign site is reported. (2) In the fermionic transpose the permutation given to the sign "
-    "function is the one applied to the data; in the contraction the virtual reversal acts on exactly the contracted (first ncon) "
-    "axes of b and the operands are laid out [..., contracted] [contracted, ...]. (3) The Koszul sign function is a closed "
-    "function of a parity vector and a permutation: it is evaluated (checker's own evaluator) exhaustively for all parity "
-    "vectors and permutations up to length 4 against the parity of the number of inversions among odd entries, and perm=None "
+    "(1) R03.1, convention agreement by abstract evaluation: each public operation that contracts a pair of legs or creates a bond "
+    "(tensordot in both size branches, matmul, trace, einsum, qr / svd / eigh / solve wrappers) is interpreted by the checker's "
+    "evaluator with its abelian core replaced by a stub and the sign primitives (phase_flip, transpose, phase_sync) recorded; for "
+    "every direction pattern of the contracted pair the recorded sign flips must be exactly those of the single convention - a sign "
+    "iff the FIRST index of the pair (the left factor's) is non-dual, equivalently iff the SECOND (the right factor's) is dual. (2) "
+    "R03.2: in the same evaluation the operands reach the core laid out [..., contracted] [contracted, ...] in paired order and the "
+    "virtual reversal covers exactly the contracted (first ncon) axes of b; R09.2 (shared with C09): transpose / dagger / "
+    "_map_blocks re-key blocks and pending signs by the same map and multiply the Koszul sign of the permutation actually applied. (3) "
+    "R03.3: the Koszul sign function is a closed function of a parity vector and a permutation; it is evaluated exhaustively for all "
+    "parity vectors and permutations up to length 4 against the parity of the number of inversions among odd entries, and perm=None "
     "against the full reversal. Element-wise agreement with a graded dense calculation is not decided."
 )
 ASSUMPTIONS = ["one sign convention for contracted pairs: sign iff ket (non-dual) then bra (dual)"]
